@@ -1,5 +1,6 @@
 import WebpVerif.Spec.Lossless
 import WebpVerif.Spec.LosslessP
+import WebpVerif.Model.LosslessStream
 import WebpVerif.Model.Util
 import WebpVerif.Model.ColorIndex
 namespace DrvLossless
@@ -7,6 +8,14 @@ open Util
 
 def handle (args : List String) : Option String :=
   match args with
+  | ["vp8lcrate", stream] => do
+      -- the stream model with the crate's entropy layer (CodeRead.readCode + Huff.readSym)
+      let bytes ← parseHex stream
+      match LStream.decodeCrate bytes.toList with
+      | none => some "invalid"
+      | some (w, h, img) =>
+        let rgba := VP8L.toRgba img.toArray
+        some (s!"ok {w} {h} " ++ toString (rgba.foldl fnvByte fnvInit).toNat ++ "/" ++ toString rgba.size)
   | ["vp8lspecp", stream] => do
       -- the proof-friendly twin of the specification (the one the theorems are about)
       let bytes ← parseHex stream
